@@ -31,12 +31,12 @@ var engines = []string{"pebble", "mem"}
 
 // Witness is what a C20 replay file carries.
 type Witness struct {
-	Kind     string    `json:"kind"` // sequence | stress | asan
-	Engine   string    `json:"engine"`
-	Sequence *Sequence `json:"sequence,omitempty"`
-	Finding  *Finding  `json:"finding,omitempty"`
-	Shrunk   bool      `json:"shrunk"`
-	OrigLen  int       `json:"original_steps,omitempty"`
+	Kind     string      `json:"kind"` // sequence | stress | asan
+	Engine   string      `json:"engine"`
+	Sequence *Sequence   `json:"sequence,omitempty"`
+	Finding  *Finding    `json:"finding,omitempty"`
+	Shrunk   bool        `json:"shrunk"`
+	OrigLen  int         `json:"original_steps,omitempty"`
 	Extra    interface{} `json:"extra,omitempty"`
 }
 
